@@ -153,7 +153,22 @@ fn load_corpus_dir(dir: &std::path::Path) -> Vec<Scenario> {
         };
         let sc: Option<Scenario> = serde_json::from_str::<ReplayFile>(&s).map(|r| r.scenario).ok().or_else(|| serde_json::from_str::<Scenario>(&s).ok());
         match sc {
-            Some(sc) => out.push(sc),
+            Some(mut sc) => {
+                // under the job-id naming the engine is not told WHICH files of an upstream a job consumes, so
+                // every dependency consumes all of them (the generator draws nothing else there); a minimised
+                // witness may carry a narrower subset over from the production naming - widen it, or a later
+                // change of the subset would be a change nobody can notice
+                if sc.cfg.names == Names::JobIds {
+                    for r in sc.rounds.iter_mut() {
+                        for e in r.edits.iter_mut() {
+                            if let Edit::AddEdge { consumed, .. } = e {
+                                consumed.clear();
+                            }
+                        }
+                    }
+                }
+                out.push(sc)
+            }
             None => {
                 eprintln!("harness error: corpus file {} does not parse", f.display());
                 std::process::exit(2);
